@@ -148,7 +148,7 @@ Proof.
   - assert (zlen b = zlen digits - dp) as Hzb by (unfold b; rewrite zlen_skipn; lia). lia.
 Qed.
 
-(* the exponent digits: value and first character, for every magnitude the source admits *)
+(* the exponent digits: value and first character, for every magnitude the source allows *)
 Definition expd (E : Z) : list Z := if E =? 0 then [48] else exp_loop 5 E [].
 Lemma expd_sweep : forallb (fun E => (num (expd E) =? E) && match expd E with x :: _ => is_digit x | [] => false end) (zrange 10000) = true.
 Proof. vm_compute. reflexivity. Qed.
@@ -228,3 +228,16 @@ Proof.
   - unfold read_number. rewrite Z.eqb_refl. cbn [fst snd]. split; [reflexivity|exact Hres].
   - rewrite Hb, read_number_pos by exact Hx. cbn [fst snd]. rewrite <- Hb. split; [reflexivity|exact Hres].
 Qed.
+
+Theorem float_denotes_proof :
+  forall sign digits dp, dvalue_ok_float (DFinite sign digits dp) = true ->
+  denotes (to_shortest_chars (DFinite sign digits dp)) sign digits dp.
+Proof.
+  intros sign digits dp H. simpl in H. apply andb_true_iff in H. destruct H as [H H2]. apply andb_true_iff in H. destruct H as [H0 H1].
+  apply (to_shortest_denotes_proof 9 sign digits dp H0). split; [apply Z.leb_le in H1|apply Z.leb_le in H2]; lia.
+Qed.
+
+Theorem double_denotes_proof :
+  forall sign digits dp, digits_ok kBase10MaximalLength digits = true -> -323 <= dp <= 309 ->
+  denotes (to_shortest_chars (DFinite sign digits dp)) sign digits dp.
+Proof. intros sign digits dp. exact (to_shortest_denotes_proof kBase10MaximalLength sign digits dp). Qed.
